@@ -37,8 +37,9 @@ def scratch_copy():
     for n in ("known_findings.json",):
         if os.path.exists(os.path.join(VERIF, n)):
             shutil.copy2(os.path.join(VERIF, n), v)
-    if os.path.isdir(os.path.join(VERIF, "tables")):
-        shutil.copytree(os.path.join(VERIF, "tables"), os.path.join(v, "tables"))
+    for sub in ("tables", "controls"):
+        if os.path.isdir(os.path.join(VERIF, sub)):
+            shutil.copytree(os.path.join(VERIF, sub), os.path.join(v, sub))
     return d
 
 def run_one(patch, only_prop=None):
